@@ -7,7 +7,7 @@ use crate::rng::Rng;
 use crate::runner::*;
 use serde_json::{json, Value};
 
-pub const RULE: &str = "cases = (range text rendered from a generated AST) judged on a boundary-directed probe set of versions (≈30 per bound of model and crate) against the documented npm desugaring of the AST; strata: D directed literals, E1 every operator x partial shape x numbers {0,1,2} (exhaustive), E3 every hyphen shape pair (exhaustive), E2 pairs of E1 comparators as `a b` and `a || b`, R seeded random ASTs with loose spellings and garbage tokens, B components at MAX_SAFE_INTEGER; a case is non-trivial when its probe set contains both admitted and rejected versions; distinct = distinct range texts";
+pub const RULE: &str = "cases = (range text rendered from a generated AST) judged on a boundary-directed probe set of versions (≈30 per bound of model and crate) against the documented npm desugaring of the AST; strata: D directed literals, E1 every operator x partial shape x numbers {0,1,2} (exhaustive), E3 every hyphen shape pair (exhaustive), E2 pairs of E1 comparators as `a b` and `a || b`, R seeded random ASTs with loose spellings and garbage tokens, LL long `||` lists of 17..300 alternatives (pins observable only through their own alternative), B components at MAX_SAFE_INTEGER; a case is non-trivial when its probe set contains both admitted and rejected versions; distinct = distinct range texts";
 
 fn witness(ast: &RangeAst, sp: &Spelling, text: &str, m: &Mismatch) -> Value {
     json!({"kind": "range-version", "range": text, "plain": ast.plain_text(), "spelling": sp.describe(), "version": m.version.as_ref().map(|v| v.text()), "dir": m.dir})
@@ -214,6 +214,34 @@ pub fn run(ctx: &mut Ctx) {
             let sp = Spelling::random(&mut r);
             let class = format!("random:alts{}:{}", ast.alts.len(), sp.describe());
             judge_ast(ctx, &ast, &sp, &class);
+        }
+    }
+    // LL long `||` lists: 17..300 alternatives (counts around 16/32/64/256), each a random
+    // comparator set; the versions admitted only by a late alternative are among the probes
+    ctx.stratum("LL-long-or-lists", false);
+    let nl = ctx.tier.n(12, 400);
+    for i in 0..nl {
+        if ctx.take() {
+            let mut r = Rng::for_case(ctx.seed, "C01-LL", i);
+            let n = *r.pick(&[17usize, 18, 33, 34, 65, 66, 130, 257, 260, 300]);
+            let mut alts = vec![];
+            for k in 0..n {
+                if r.chance(2, 3) {
+                    // a pin on its own tuple: only this alternative admits it
+                    let p = Partial::full(&MV::new(10 + k as u64, (k % 3) as u64, (k % 7) as u64));
+                    alts.push(Alt::Set(vec![Tok::Cmp(*r.pick(&[Op::Eq, Op::Tilde, Op::Caret]), p)]));
+                } else {
+                    // any comparator that is bounded above (numeric major <= 3): it cannot admit
+                    // the pins, so each pin stays observable
+                    let mut p = rand_partial(&mut r, &[0, 1, 2, 3]);
+                    while !matches!(p.comps.first(), Some(Xr::Num(_))) {
+                        p = rand_partial(&mut r, &[0, 1, 2, 3]);
+                    }
+                    alts.push(Alt::Set(vec![Tok::Cmp(*r.pick(&[Op::Bare, Op::Eq, Op::Tilde, Op::Caret, Op::Lt, Op::Le]), p)]));
+                }
+            }
+            let ast = RangeAst { alts };
+            judge_ast(ctx, &ast, &plain, &format!("long-or:{}", if n > 256 { ">256" } else if n > 64 { "65..256" } else if n > 32 { "33..64" } else { "17..32" }));
         }
     }
     // B big numbers: every operator x shape with MAX_SAFE / MAX_SAFE-1 components
